@@ -77,6 +77,18 @@ def build(stream: str, n: int, seed: int) -> list[Case]:
         job = {"src": str(root / p.name), "out": str(base / f"o{i}"), "docstyle": p.style, **sp["job"]}
         jobs.append(job)
         cases.append([i, p, files, job])
+    if stream == "base":
+        # regression witnesses of repaired defects: always part of the corpus
+        import findings
+        for wname, builder in findings.FIXED_BUILDERS.items():
+            p, opts = builder()
+            files = gen_pkg.package_files(p)
+            root = base / f"fixed_{wname}"
+            implrun.write_tree(root, files)
+            job = {"src": str(root / p.name), "out": str(base / f"o_fixed_{wname}"), "docstyle": p.style, "nc": False, "tsp": "code",
+                   "tsw": "warn", **opts}
+            jobs.append(job)
+            cases.append([len(cases), p, files, job])
     answers = implrun.run_jobs(jobs)
     lines, idx = [], []
     for k, a in enumerate(answers):
